@@ -305,6 +305,48 @@ def gen_kern128(rng, quick):
     return cases
 
 
+Q30 = [1073479681, 1071513601, 1070727169, 1068236801]
+
+
+def gen_q120(rng, quick, consts):
+    """NTT120 integer kernels (c_from_b, from_znx64(+masked), mul_bbc): model vs nref/navx and nref vs navx"""
+    cases = []
+    U64 = (1 << 64) - 1
+    for rep in range(6 if quick else 60):
+        xs = []
+        for j in range(rng.range(1, 9)):
+            for k in range(4):
+                q = Q30[k]
+                xs.append(rng.choice([0, 1, q - 1, q, q + 1, 2 * q - 1, (q << 32) - 1, q << 32, (q << 33) - 1, (1 << 61) - 1, 1 << 32,
+                                      (1 << 32) - 1, rng.next() % (q << 33), rng.next() % (q << 33)]))
+        cases.append(dict(line=f"op=c_from_b x={ints(xs)}", fam="q120", op="c_from_b", adm=True, key=("q120", "c_from_b", len(xs) // 4, rep % 8), nt=True))
+        xs = [rng.choice([0, 1, -1, I64MAX, I64MIN, I64MIN + 1, 1 << 62, -(1 << 62), r64(rng), r64(rng)]) for _ in range(rng.range(1, 12))]
+        cases.append(dict(line=f"op=from_znx64 x={ints(xs)}", fam="q120", op="from_znx64", adm=True, key=("q120", "from_znx64", len(xs), rep % 8), nt=True))
+        m = rng.choice([-1, 0, -(1 << rng.range(1, 62)), I64MIN, r64(rng)])
+        cases.append(dict(line=f"op=from_znx64 mask={m} x={ints(xs)}", fam="q120", op="from_znx64_masked", adm=True,
+                          key=("q120", "from_znx64_masked", len(xs), rep % 8), nt=True))
+    meta = f"h={consts.get('bbc_h', 0)} s2l={consts.get('s2l', '-')} s2h={consts.get('s2h', '-')}"
+    for ell in ([1, 2, 3, 17, 256, 9999, 10000] if quick else [1, 2, 3, 4, 5, 17, 100, 256, 1000, 4096, 9999, 10000]):
+        for cls in ("max", "rand", "valid"):
+            xs, ys = [], []
+            for i in range(ell):
+                for k in range(4):
+                    q = Q30[k]
+                    if cls == "max":
+                        xs.append(U64)
+                        ys.append(U64)
+                    elif cls == "rand":
+                        xs.append(rng.next())
+                        ys.append(rng.next())
+                    else:
+                        r = rng.next() % q
+                        xs.append(rng.next() % (q << 33))
+                        ys.append(r | (((r << 32) % q) << 32))
+            cases.append(dict(line=f"op=mul_bbc x={ints(xs)} y={ints(ys)} {meta}", fam="q120", op="mul_bbc", adm=True,
+                              key=("q120", "mul_bbc", ell, cls), nt=True))
+    return cases
+
+
 COEFF_OPS = ["add_into", "add_assign", "sub", "sub_assign", "sub_negate_assign", "negate", "negate_assign", "add_scalar_into",
              "add_scalar_assign", "sub_scalar", "sub_scalar_assign", "rotate", "rotate_assign", "automorphism",
              "automorphism_assign", "mul_xp_minus_one", "mul_xp_minus_one_assign", "copy", "zero"]
@@ -451,6 +493,27 @@ def gen_hal(rng, quick):
                 n, cols, sa, sb, sr = shape()
                 add(op, f"cols={cols} col={rng.below(cols)} sa={sa} sb={sb} sr={sr} rows={rng.range(1, 4)} cout=1 co=0 b=30 va=norm vb=norm ma=48 mb=40",
                     "dft_wide", "ntt", n, (n,))
+    # ---- large rings, worst-case value classes (all digits at the extremes, aligned signs), a-priori bound
+    # n * terms * 2^(ma-1) * 2^(mb-1) = 2^48 / 2^49 (demanded: all four equal) and the edge up to 2^50 (recorded: where FFT64 rounds wrongly)
+    import math
+    for n in ([4096] if quick else [4096, 16384, 65536]):
+        lg = int(math.log2(n))
+        for cls in ("max", "min", "ext"):
+            for (op, terms, extra) in [("svp_apply_dft", 1, "cols=1 sa=2 sb=1 sr=2"), ("svp_apply_dft_to_dft", 1, "cols=1 sa=2 sb=1 sr=2"),
+                                       ("vmp_apply_dft", 4, "cols=1 sa=2 sb=2 sr=2 rows=2 cout=2"),
+                                       ("vmp_apply_dft_to_dft", 4, "cols=2 sa=1 sb=2 sr=2 rows=2 cout=1 lo=0"),
+                                       ("cnv_apply_dft", 2, "cols=1 sa=2 sb=2 sr=4 co=0"), ("cnv_by_const_apply", 2, "cols=1 sa=2 sb=2 sr=4 co=0")]:
+                # measured: worst-case inputs are exact up to 2^49 for n <= 4096 and up to 2^48 for n <= 65536
+                for (tgt, dom) in ((48, "all"), (49, "all" if n <= 4096 else "edge"), (50, "edge")):
+                    tot = tgt - lg - int(math.log2(terms)) + 2          # ma + mb
+                    ma = tot // 2
+                    mb = tot - ma
+                    b = min(ma, 30)
+                    add(op, f"{extra} b={b} va={cls} vb={cls} ma={ma} mb={mb}", "big_ring_worst", dom, n, (n, cls, tgt))
+            # the transforms themselves
+            add("dft_fft_raw", f"cols=1 sa=2 b=20 va={cls} ma=40", "transform_raw", "fftraw", n, (n, cls))
+            add("dft_ifft_raw", f"cols=1 sa=2 b=20 va={cls} ma=40", "transform_raw", "fam", n, (n, cls))
+            add("dft_idft_consume", f"cols=1 col=0 sa=2 sr=2 b=20 step=1 doff=0 va={cls} ma=20", "transform_raw", "all", n, (n, cls))
     return cases
 
 
@@ -462,10 +525,26 @@ def gen_scheme(rng, quick):
             n = rng.choice([8, 16, 64])
             b = rng.choice([10, 12, 14, 17])
             rank = rng.range(1, 2)
-            dsize = rng.range(1, 3)
+            dsize = rng.range(1, 4)
             p = rng.range(-n, n) | 1
             cases.append(dict(line=f"op={op} n={n} b={b} rank={rank} dsize={dsize} p={p} seed={rng.next() >> 1}", fam="scheme", op=op, dom="all",
                               n=n, key=("scheme", op, n, b, rank, dsize), nt=True))
+    # key-switch / automorphism / external product with digit sizes 3 and 4 explicitly
+    for op in ("keyswitch", "automorphism", "extprod", "cmux"):
+        for dsize in (3, 4):
+            for i in range(2 if quick else 8):
+                n = rng.choice([8, 16, 64])
+                b = rng.choice([10, 12, 14])
+                kin = rng.range(2, 6) * b + rng.range(0, b - 1)
+                cases.append(dict(line=f"op={op} n={n} b={b} rank={rng.range(1, 2)} dsize={dsize} kin={kin} p={rng.range(-n, n) | 1} seed={rng.next() >> 1}",
+                                  fam="scheme", op=op, dom="all", n=n, key=("scheme", op, n, b, dsize, "kin"), nt=True))
+    # CKKS program: encrypt, multiply, rescale, rotate (every intermediate ciphertext hashed)
+    for i in range(6 if quick else 40):
+        n = rng.choice([8, 16, 64])
+        b = rng.choice([10, 12, 14, 17])
+        dsize = rng.range(1, 3)
+        cases.append(dict(line=f"op=ckks_prog n={n} b={b} dsize={dsize} rs={rng.range(1, 2 * b)} rot={rng.choice([1, -1, 2, 3, n // 4])} seed={rng.next() >> 1}",
+                          fam="scheme", op="ckks_prog", dom="all", n=n, key=("scheme", "ckks_prog", n, b, dsize), nt=True))
     # relinearisation with a dirty scratch arena (the arena is overwritten between tensor product and relinearisation)
     for dsize in (1, 2, 3):
         for i in range(2 if quick else 8):
@@ -681,6 +760,50 @@ def run(ctx):
         ctx.cov["kernel_lines"] = len(jobs)
         ctx.cov["kernel_lanes_compared"] = lanes_total
 
+        # ---- NTT120 integer kernels: constants, then model vs nref / navx
+        rc, co, _ = ctx.run_lines(binp, ["avx"], ["0 q120 be=nref op=consts", "1 q120 be=navx op=consts"])
+        rc2, cm, _ = ctx.run_lines(drv, [], ["0 avx q120 be=navx op=consts"])
+        consts = parse_lists(payload(co[0])) if co else {}
+        mconsts = parse_lists(payload(cm[0])) if cm else {}
+        ctx.cov["primes30_dump"] = consts
+        ctx.count_case(("q120", "consts"), nontrivial=True)
+        if not consts or payload(co[0]) != payload(co[1]) or consts.get("q") != mconsts.get("q") or consts.get("crt") != mconsts.get("crt"):
+            broken.append(f"Primes30 constants: crate {consts} vs Lean model {mconsts}")
+        else:
+            # hypotheses of C10.mat_vec_bbc_no_overflow on the dumped BbcMeta
+            hh = int(consts.get("bbc_h", 0))
+            s2 = [int(v) for v in (consts.get("s2l", "0") + "," + consts.get("s2h", "0")).split(",")]
+            if not (15 <= hh <= 32 and all(v < (1 << 30) for v in s2)):
+                broken.append(f"BbcMeta outside the proved range: h={hh} s2={s2}")
+        kq = gen_q120(rng.fork(), quick, consts)
+        jobs = [(c, be) for c in kq for be in ("nref", "navx")]
+        hl = [f"{i} q120 be={be} {c['line']}" for i, (c, be) in enumerate(jobs)]
+        ml = [f"{i} avx q120 be={be} {c['line']}" for i, (c, be) in enumerate(jobs)]
+        rc, hout, herr = ctx.run_lines(binp, ["avx"], hl)
+        rc2, mout, merr = ctx.run_lines(drv, [], ml)
+        if rc != 0 or len(hout) != len(jobs) or rc2 != 0 or len(mout) != len(jobs):
+            broken.append(f"q120 run failed rc={rc}/{rc2} answers={len(hout)}/{len(mout)}/{len(jobs)} {herr[-200:]} {merr[-200:]}")
+        resq = {}
+        for i, (c, be) in enumerate(jobs):
+            hh_ = payload(hout[i]) if i < len(hout) else "?"
+            mm_ = payload(mout[i]) if i < len(mout) else "?"
+            resq[(id(c), be)] = hh_
+            ctx.count_case(c["key"] + (be,), nontrivial=True)
+            bump("kern:q120")
+            lanes_total += hh_.count(",") + 1
+            if hh_ != mm_ or "stray" in hh_:
+                ctx.disagreements += 1
+                broken.append(f"q120 model != implementation: be={be} {c['line'][:160]} impl={hh_[:80]} model={mm_[:80]}")
+                witness = witness or {"kind": "q120-model-vs-impl", "be": be, "request": c["line"][:2000], "impl": hh_[:400], "model": mm_[:400]}
+        for c in kq:
+            ctx.count_case(c["key"] + ("nref=navx",), nontrivial=True)
+            if resq.get((id(c), "nref")) != resq.get((id(c), "navx")):
+                ctx.disagreements += 1
+                broken.append(f"Ref != AVX (q120): {c['line'][:200]}")
+                witness = witness or {"kind": "ref-vs-avx-q120", "request": c["line"][:2000]}
+        ctx.cov["q120_requests"] = len(jobs)
+        ctx.cov["kernel_lanes_compared"] = lanes_total
+
     # ---- gate 3b: HAL operations, scheme programs, sampling on four back ends
     if binp:
         hal = gen_hal(rng.fork(), quick)
@@ -701,6 +824,8 @@ def run(ctx):
         outside = {"equal": 0, "different": 0}
         npanic = 0
         keyed = {}
+        edge = {}
+        fftraw = {"equal": 0, "different": 0}
         for c, mode in [(c, "hal") for c in hal] + [(c, "scheme") for c in sch] + [(c, "sample") for c in smp]:
             pairs = [("nref", "navx")]
             if c["n"] != 1:
@@ -734,6 +859,13 @@ def run(ctx):
             if c["dom"] == "ntt" and c["n"] != 1:
                 same = res.get((id(c), "fref")) == res.get((id(c), "favx"))
                 outside["equal" if same else "different"] += 1
+            if c["dom"] == "edge":
+                for be in ("fref", "favx"):
+                    edge[be + ("=exact" if res.get((id(c), be)) == res.get((id(c), "nref")) else "!=exact")] = \
+                        edge.get(be + ("=exact" if res.get((id(c), be)) == res.get((id(c), "nref")) else "!=exact"), 0) + 1
+            if c["dom"] == "fftraw":
+                same = res.get((id(c), "fref")) == res.get((id(c), "favx"))
+                fftraw["equal" if same else "different"] += 1
         for fk, hits in keyed.items():
             ctx.log(f"defect class {fk}: {len(hits)} differing cases")
             ctx.violation(("Ref != AVX: " if fk == K_REIM else "FFT64 != NTT120: ") + fk,
@@ -741,11 +873,76 @@ def run(ctx):
                            "rerun": "printf '0 " + hits[0]["request"] + " be=<back end> dump=1\\n' | harness/target/release/pvh avx"}, True, key=fk)
         ctx.cov["keyed_defect_hits"] = {k: len(v) for k, v in keyed.items()}
         ctx.cov["fft64_pair_outside_conversion_bound"] = outside
+        ctx.cov["fft64_at_a_priori_bound_edge_worst_case"] = edge
+        ctx.cov["fft64_forward_transform_raw_f64_bits_ref_vs_avx"] = fftraw
         ctx.cov["hal_requests"] = len(jobs)
         ctx.cov["hal_panics"] = npanic
         if hal:
             for s in (hal[7], sch[0], smp[0]):
                 ctx.samples.append({"request": s["line"][:200], "navx": res.get((id(s), "navx"), "")[:160]})
+    # ---- gate 3c: scheme-level families of the other slices' harnesses, run on four back ends and byte-compared:
+    #      key-switch / automorphism / trace / packing (pvh ks, generators of C03), blind rotation (pvh lut, C14)
+    if binp:
+        from . import c03
+        r3 = rng.fork()
+        kcases = []
+        for k in range(24 if quick else 240):
+            n = [8, 16, 32][k % 3]
+            op = ["ks", "ks_assign", "auto", "trace", "ks", "auto_assign"][k % 6]
+            kcases.append(c03.shape(r3, op, n, ntt_only=(k % 8 == 7), force={"dsize": [3, 4, 1, 2][k % 4], "cls": ["enc", "raw", "ext"][k % 3]}))
+        class _T:       # c03.generate_pack only reads .tier
+            tier = ctx.tier
+        pk = c03.generate_pack(_T, r3)
+        kcases += pk[:: max(1, len(pk) // (40 if quick else 400))]
+        names = {"fref": "fft64ref", "favx": "fft64avx", "nref": "ntt120ref", "navx": "ntt120avx"}
+        jobs = [(c, be) for c in kcases for be in ("fref", "favx", "nref", "navx")]
+        lines = [c03.harness_line(i, c, names[be], i % 2) for i, (c, be) in enumerate(jobs)]
+        rc, out, err = ctx.run_lines(binp, ["ks"], lines, timeout=3000)
+        if rc != 0 or len(out) != len(jobs):
+            broken.append(f"pvh ks failed rc={rc} answers={len(out)}/{len(jobs)} {err[-300:]}")
+        resk = {(id(c), be): payload(out[i]) if i < len(out) else "?" for i, (c, be) in enumerate(jobs)}
+        for c in kcases:
+            infft = c03.in_fft_domain(c) and c["bkey"] <= 17
+            pairs = [("nref", "navx"), ("fref", "favx")] + ([("fref", "nref")] if infft else [])
+            for (p_, q_) in pairs:
+                rp, rq = resk.get((id(c), p_), "?"), resk.get((id(c), q_), "?")
+                if p_[0] == "f" and not infft and p_[0] == q_[0]:
+                    continue            # FFT64 outside its magnitude domain: not demanded
+                ctx.count_case(("ks", c["op"], c["n"], c["dsize"], c["bin"] == c["bkey"], c["bout"] == c["bkey"], c["rin"], c["rout"], p_ + "=" + q_),
+                               nontrivial=rp.startswith("ok"))
+                bump("ks/pack/trace")
+                if rp != rq:
+                    ctx.disagreements += 1
+                    what = "Ref != AVX" if p_[0] == q_[0] else "FFT64 != NTT120"
+                    broken.append(f"{what}: ks {c03.harness_line(0, c, names[p_], 0)[:300]}")
+                    witness = witness or {"kind": what, "request": c03.harness_line(0, c, names[p_], 0), "other_backend": names[q_],
+                                          p_: rp[-600:], q_: rq[-600:], "rerun": "printf '<request>\\n' | harness/target/release/pvh ks"}
+        ctx.cov["ks_pack_requests"] = len(jobs)
+        # blind rotation (standard, block-binary, extended), decrypted limbs compared
+        bcases = []
+        for (ng, nl, block, ext, dist) in [(32, 6, 1, 1, "block"), (32, 8, 4, 1, "block"), (16, 6, 3, 2, "block"), (32, 6, 2, 4, "block"),
+                                           (32, 6, 1, 1, "hw"), (64, 16, 8, 2, "block")] + ([] if quick else [(256, 16, 4, 1, "block"), (64, 8, 4, 8, "block")]):
+            for p_ in (1, 2, 3):
+                for msg in ([0, (1 << p_) - 1] if quick else range(1 << p_)):
+                    bcases.append(dict(nglwe=ng, nlwe=nl, block=block, ext=ext, dist=dist, p=p_, msg=msg, left=(msg + p_) % 2, seed=r3.range(1, 200),
+                                       rank=2 if (msg + p_) % 5 == 0 else 1, lweb=19))
+        jobs = [(c, be) for c in bcases for be in ("fref", "favx", "nref", "navx")]
+        lines = [f"{i} blind be={names[be]} " + " ".join(f"{k}={v}" for k, v in c.items()) for i, (c, be) in enumerate(jobs)]
+        rc, out, err = ctx.run_lines(binp, ["lut"], lines, timeout=3000)
+        if rc != 0 or len(out) != len(jobs):
+            broken.append(f"pvh lut blind failed rc={rc} answers={len(out)}/{len(jobs)} {err[-300:]}")
+        resb = {(id(c), be): payload(out[i]) if i < len(out) else "?" for i, (c, be) in enumerate(jobs)}
+        for c in bcases:
+            for (p_, q_) in (("nref", "navx"), ("fref", "favx"), ("fref", "nref")):
+                rp, rq = resb.get((id(c), p_), "?"), resb.get((id(c), q_), "?")
+                ctx.count_case(("blind", c["nglwe"], c["block"], c["ext"], c["dist"], c["p"], c["rank"], p_ + "=" + q_), nontrivial=rp.startswith("ok"))
+                bump("blind_rotation")
+                if rp != rq:
+                    ctx.disagreements += 1
+                    what = "Ref != AVX" if p_[0] == q_[0] else "FFT64 != NTT120"
+                    broken.append(f"{what}: blind {c}")
+                    witness = witness or {"kind": what, "request": "blind " + " ".join(f"{k}={v}" for k, v in c.items()), p_: rp[:600], q_: rq[:600]}
+        ctx.cov["blind_requests"] = len(jobs)
     ctx.cov["comparisons_by_family"] = fam_counts
 
     # ---- verdict
